@@ -848,6 +848,37 @@ bool hmac_cmp(int hmode, const bytes &key, const bytes &file, size_t pos, const 
   fclose(fi);
   return r;
 }
+std::vector<bytes> hmac_seq(const std::vector<HmacCall> &calls, int refill_units)
+{
+  set_refill(refill_units);
+  std::vector<bytes> res;
+  hmac h;
+  for (auto &c : calls)
+  {
+    MemFile in;
+    in.d = c.file;
+    FILE *fi = mf_open(&in, "rb");
+    fseek(fi, (long)c.pos, SEEK_SET);
+    bytes k = c.key;
+    k.resize(16);
+    if (c.kind == 0)
+    {
+      bytes out(64, 0xEE);
+      h.gethmac((u8_t)c.hmode, k.data(), fi, out.data(), c.file.size());
+      out.resize(h.get_length());
+      res.push_back(out);
+    }
+    else
+    {
+      bytes t = c.tag64;
+      t.resize(64, 0);
+      bool r = h.cmphmac((u8_t)c.hmode, k.data(), fi, t.data(), c.file.size());
+      res.push_back(bytes(1, r ? 1 : 0));
+    }
+    fclose(fi);
+  }
+  return res;
+}
 bytes hmac_write(int hmode, const bytes &key, const bytes &file, size_t hash_mark, size_t write_mark, int refill_units)
 {
   set_refill(refill_units);
